@@ -16,7 +16,7 @@ CONSTANTS
   HdrOrders = {"std", "from1st", "viaLast", "rr1st", "clenmid"}
   RportForms = {"none"}
   Kinds = {"resp"}
-  RespVias = {"own", "plain", "noport", "received", "rcv.rport", "rportonly", "rportempty", "tcp", "tls", "sctp", "deep3"}
+  RespVias = {"own", "plain", "noport", "received", "rcv.rport", "rportonly", "rportempty", "rpempty.noport", "tcp", "tls", "sctp", "deep3"}
   Statuses = {100, 183, 200, 302, 404, 503, 603}
 INVARIANTS ReqOK RespOK TwinOK
 CONSTRAINT Emit
